@@ -26,7 +26,7 @@ Definition tok (s : rshared) (t : rthread) : Prop :=
   rt_c t < length (r_next s) /\
   match rt_pc t with
   | RIdle | RTest | RDbgNext => rt_wrote t = false
-  | RDbgOk => next_of s (rt_c t) <> PNil
+  | RDbgOk | RInv | RRef => next_of s (rt_c t) <> PNil
   | RDbgFail => True
   | RLink => rt_wrote t = true /\ next_of s (rt_c t) = as_next (rt_head t) /\ rt_head t <> PEnd
   | RNext => rt_head t <> PEnd
@@ -298,6 +298,14 @@ Proof.
     injection Hs as <- <-. apply (rinv_local s ts i t _ l); auto.
     + intros c. unfold own, owner. cbn. rewrite Hpc, !andb_false_r. reflexivity.
     + split; [exact Tc | exact Tt].
+  - (* RInv *)
+    injection Hs as <- <-. apply (rinv_local s ts i t _ l); auto.
+    + intros c. unfold own, owner. cbn. rewrite Hpc, !andb_false_r. reflexivity.
+    + split; [exact Tc | exact Tt].
+  - (* RRef *)
+    injection Hs as <- <-. apply (rinv_local s ts i t _ l); auto.
+    + intros c. unfold own, owner. cbn. rewrite Hpc, !andb_false_r. reflexivity.
+    + split; [exact Tc | exact Tt].
   - (* RDone *)
     injection Hs as <- <-. apply (rinv_local s ts i t _ l); auto. split; [exact Tc|]. rewrite Hpc. exact Tt.
 Qed.
@@ -402,3 +410,50 @@ Proof.
   subst l'. unfold quiescent_ok. rewrite CH, (nodupb_true _ ND). cbn [andb].
   apply forallb_forall. intros t Ht. apply orb_true_iff. right. apply mem_In. apply Hin. exact Ht.
 Qed.
+
+(* ---- a register call can return before its counter is on the list ---- *)
+(* At EVERY instant, for a call that has returned: its counter is on the list,
+   or exactly one other call has claimed it (wrote c.next) and has not linked
+   it yet.  That call goes on to RLink and, once its CAS on the head succeeds,
+   through RInv and RRef: it redoes for this counter the invalidation pass a
+   mapping changer's walk may have missed (fix f518e0b). *)
+Lemma sumn_pos_witness f ts : 0 < sumn f ts -> exists j t, nth_error ts j = Some t /\ 0 < f t.
+Proof.
+  induction ts as [|x ts IH]; cbn [sumn]; [lia|]. intros H.
+  destruct (Nat.eq_dec (f x) 0) as [E|E].
+  - destruct IH as (j & t & Hj & Ht); [lia|]. exists (S j), t. auto.
+  - exists 0, x. split; [reflexivity | lia].
+Qed.
+
+Theorem returned_means_listed_or_claimed n who sched : Forall (fun c => c < n) who ->
+  let '(s, ts) := rrun sched (rinit n who) in
+  forall t, In t ts -> rt_pc t = RDone ->
+  exists l, HeadChain s l /\
+    (In (rt_c t) l \/
+     exists j u, nth_error ts j = Some u /\ rt_c u = rt_c t /\ rt_wrote u = true /\
+       (rt_pc u = RHead \/ rt_pc u = RNext \/ rt_pc u = RLink \/ rt_pc u = RDbgFail)).
+Proof.
+  intros Hw. pose proof (rinv_run sched _ (rinv_init n who Hw)) as I.
+  destruct (rrun sched (rinit n who)) as [s ts].
+  destruct I as (l & HC & ND & _ & HB & E & TK). intros t Ht Hd.
+  exists l. split; [exact HC|].
+  rewrite Forall_forall in TK. destruct (TK t Ht) as [Tc Tt]. rewrite Hd in Tt.
+  specialize (E _ Tc).
+  assert (Hnz : nz (next_of s (rt_c t)) = 1) by (destruct (next_of s (rt_c t)); [contradiction | reflexivity | reflexivity]).
+  rewrite Hnz in E. unfold inl in E. destruct (mem (rt_c t) l) eqn:M.
+  - left. apply inl_In. unfold inl. rewrite M. lia.
+  - right. destruct (sumn_pos_witness (own (rt_c t)) ts ltac:(lia)) as (j & u & Hj & Hu).
+    exists j, u. split; [exact Hj|]. unfold own, owner in Hu.
+    destruct (rt_wrote u) eqn:W; cbn [andb] in Hu; [|lia].
+    destruct (Nat.eqb_spec (rt_c u) (rt_c t)) as [Ec|Ec]; [|rewrite andb_false_r in Hu; lia].
+    split; [exact Ec|]. split; [reflexivity|].
+    destruct (rt_pc u); cbn in Hu; try lia; auto.
+Qed.
+
+(* the hazard is real: two calls for counter 0; the first claims it and is
+   parked before linking, the second finds c.next set and returns - with the
+   list still empty *)
+Theorem early_return_before_link :
+  let '(s, ts) := rrun [0; 0; 0; 0; 1; 1] (rinit 1 [0; 0]) in
+  exists t, nth_error ts 1 = Some t /\ rt_pc t = RDone /\ r_head s = PNil.
+Proof. vm_compute. eexists. repeat split. Qed.
